@@ -1570,6 +1570,15 @@ def shapes_of(src: str):
         for n in ast.walk(st):
             if isinstance(n, ast.Name) and isinstance(n.ctx, ast.Store):
                 assigned.add(n.id)
+    # a Servo / Buzzer name bound twice with different arguments besides the pin: two global lines for one state variable
+    bound = {}
+    for n in ast.walk(tree):
+        if isinstance(n, ast.Assign) and len(n.targets) == 1 and isinstance(n.targets[0], ast.Name) and isinstance(n.value, ast.Call) \
+                and isinstance(n.value.func, ast.Name) and n.value.func.id in ("Servo", "Buzzer"):
+            rest = [ast.dump(a) for a in n.value.args[1:]] + sorted(k.arg + "=" + ast.dump(k.value) for k in n.value.keywords if k.arg and k.arg != "pin")
+            bound.setdefault(n.targets[0].id, set()).add((n.value.func.id, tuple(rest)))
+    if any(len(v) > 1 for v in bound.values()):
+        out.add("device-rebound-globals")
     # a for-loop variable mentioned after its loop (C++: declared by the for header only)
     fors = [n for n in ast.walk(tree) if isinstance(n, ast.For) and isinstance(n.target, ast.Name)]
     plain = {}
